@@ -54,6 +54,61 @@ def bookkeeping_oracle(k, o):
     return []
 
 
+def published_form_oracle(k):
+    """relations the published equations impose on every weight that training can produce (evaluated on the trained
+    model of the call): ART1 bottom-up = L/(L-1+|t|) t; a category is unchanged when its founding pattern is presented
+    again (ART1, Fuzzy, Hypersphere, Ellipsoid: new_weight(x) is a fixed point of update(x, .)); Ellipsoid ART: the
+    major axis is zero exactly for one-point categories, a unit vector otherwise, and a pattern presented to a category
+    that already has an axis leaves the axis alone"""
+    est, kind, fails = k["est"], k["kind"], []
+
+    def f(sig, what):
+        fails.append({"signature": f"{kind}/{sig}", "text": what, "replay": {"kind": kind, "params": {a: (np.asarray(b).tolist() if isinstance(b, np.ndarray) else b) for a, b in k["p"].items()},
+                                                                          "X": np.asarray(k["X"]).tolist(), "x": np.asarray(k["x"]).tolist(), "category": k["c"]}})
+    d = len(k["x"])
+    with np.errstate(all="ignore"):
+        if kind == "ART1":
+            L = float(k["p"]["L"])
+            for j, w in enumerate(k["Ws"]):
+                t, bu = w[d:], w[:d]
+                if t.sum() > 0 and not np.allclose(bu, L / (L - 1 + t.sum()) * t, atol=1e-12):
+                    f("bottom-up-rule", f"category {j}: bottom-up weights {bu.tolist()} are not L/(L-1+|t|) t for the template {t.tolist()}")
+                    break
+        if kind in ("ART1", "Fuzzy", "Hyper", "Ellip"):
+            x = np.asarray(k["x"], dtype=float)
+            try:
+                w0 = np.asarray(est.new_weight(x, est.params), dtype=float)
+                _, cache = est.category_choice(x, w0, params=est.params)
+                _, cache = est.match_criterion(x, w0, params=est.params, cache=cache)
+                w1 = np.asarray(est.update(x, w0, est.params, cache=cache), dtype=float)
+                if w0.shape != w1.shape or not np.allclose(w0, w1, atol=1e-12):
+                    f("founding-pattern-fixed-point", f"new_weight(x) = {w0.tolist()} but presenting x again gives {w1.tolist()}")
+            except (ZeroDivisionError, FloatingPointError):
+                pass
+        if kind == "Ellip":
+            for j, w in enumerate(k["Ws"]):
+                axis, r = w[d:-1], w[-1]
+                nrm = float(np.sqrt(np.sum(axis ** 2)))
+                if r > 1e-12 and abs(nrm - 1.0) > 1e-9:
+                    f("major-axis-rule", f"category {j} has radius {r} but its major axis {axis.tolist()} is not a unit vector")
+                    break
+                if r == 0.0 and nrm != 0.0:
+                    f("major-axis-rule", f"one-point category {j} has a major axis {axis.tolist()}")
+                    break
+            w = k["Ws"][k["c"]]
+            if np.any(w[d:-1] != 0):
+                try:
+                    x = np.asarray(k["x"], dtype=float)
+                    _, cache = est.category_choice(x, w, params=est.params)
+                    _, cache = est.match_criterion(x, w, params=est.params, cache=cache)
+                    w1 = np.asarray(est.update(x, w, est.params, cache=cache), dtype=float)
+                    if not np.array_equal(w1[d:-1], w[d:-1]):
+                        f("major-axis-rule", f"update changed the major axis of a category that already had one: {w[d:-1].tolist()} -> {w1[d:-1].tolist()}")
+                except (ZeroDivisionError, FloatingPointError):
+                    pass
+    return fails
+
+
 def gen_bbox(rng):
     d = rng.randrange(1, 5)
     lo = [Fraction(rng.randrange(0, 9), 16) for _ in range(d)]
@@ -117,6 +172,7 @@ def main():
             fails.append({"signature": f"{k['kind']}/purity", "text": "a public kernel call modified the model or its arguments", "replay": K.summary(k, o)})
         fails.extend(bin_oracle(k, o))
         fails.extend(bookkeeping_oracle(k, o))
+        fails.extend(published_form_oracle(k))
     codes, bad = flow.coq_corr("C03", "RunKern", strs, shard=100, check_fn="kcheck")
     # bounding boxes / shrink at exact rationals
     nb = 300 if tier == "quick" else 3000
